@@ -222,12 +222,26 @@ def r5(ctx, facts):
     b = facts.one(r"^scylla::network::connection::Connection::execute_raw_with_consistency::\{closure#0\}$")
     sends = b.calls_to("scylla::network::connection::Connection::send_request")
     ups = b.calls_to("Connection::update_tablets_from_response")
+    # the post-processing of a response may live in a NEW `async fn` (a coroutine of its own, not spliced by the inliner): the
+    # places where such a helper's future is built count as the call, if the helper itself feeds the tablet map with the
+    # prepared statement's table spec
+    from ..util import new_async_helpers
+    helper_sites = []
+    for hb, _ops in new_async_helpers(facts, b):
+        hups = hb.calls_to("Connection::update_tablets_from_response")
+        if hups and all(any((c.name or "").endswith("get_table_spec") for c in backward_slice(hb, u.args[1])[1]) for u in hups):
+            for bb0 in sorted(b.live_blocks):
+                for st0 in b.stmts(bb0):
+                    if st0[0] == "A" and st0[2][0] == "agg" and st0[2][1][0] == "coroutine" and st0[2][1][1] == hb.path:
+                        helper_sites.append(bb0)
     for i, s in enumerate(sorted(sends, key=lambda c: c.bb)):
         mine = [u for u in ups if b.dominates(s.bb, u.bb)]
         ok = bool(mine)
         if ok:
             # table spec argument from get_table_spec of the prepared statement
             ok = any(any((c.name or "").endswith("get_table_spec") for c in backward_slice(b, u.args[1])[1]) for u in mine)
+        if not ok:
+            ok = any(b.dominates(s.bb, hbb) for hbb in helper_sites)
         r.instance("execute-response-updates-tablets#%d" % i, ok, "after each EXECUTE the response must be passed to update_tablets_from_response with prepared.get_table_spec()", s.span)
     ub = facts.one(r"^scylla::network::connection::Connection::update_tablets_from_response::\{closure#0\}$")
     r.instance("tablet-payload-parsed", bool(ub.calls_to("RawTablet::from_custom_payload")), "update_tablets_from_response parses the tablets-routing-v1 payload", ub.span, nontrivial=False)
